@@ -60,13 +60,15 @@ def gen_member(rng, name, before):
 
 def gen_action(rng, names):
     some = lambda: rng.choice(names) if names and rng.random() < 0.93 else rng.randrange(20, 24)   # noqa: E731
-    k = rng.choice(["type", "insert", "remove", "dynamic", "greedy", "static", "limited", "dynamic", "limited"])
+    k = rng.choice(["type", "insert", "remove", "dynamic", "greedy", "static", "limited", "dynamic", "limited", "rename", "rename"])
     if k == "type":
         return ("type", [("n", some()), ("t", rng.randrange(1, 9))])
     if k == "insert":
         return ("insert", [("z", rng.choice([0, 1, 2, -1, -2, 5, 99, -99])), ("n", rng.randrange(10, 14)), ("t", rng.randrange(1, 9))])
     if k == "remove":
         return ("remove", [("n", some())])
+    if k == "rename":
+        return ("rename", [("n", some()), ("n", rng.randrange(14, 18))])
     if k in ("dynamic", "limited") and len(names) > 1 and rng.random() < 0.7:
         i = rng.randrange(1, len(names))             # mostly applicable: the counter is an earlier member
         return (k, [("n", names[i]), ("n", rng.choice(names[:i]))])
@@ -81,6 +83,11 @@ def gen_action(rng, names):
 
 def gen_runs(rng, n):
     runs = []
+    # witness of fix 8cfbd78: renaming a counter; then a rule that needs the counter under its new name
+    cnt = [[1, 1, None, None, False, False], [2, 2, 1, None, False, False], [3, 2, 1, 4, False, False], [4, 3, None, 2, False, False]]
+    runs.append((1, cnt, [(1, [("rename", [("n", 1), ("n", 15)])])]))
+    runs.append((1, cnt, [(1, [("rename", [("n", 1), ("n", 15)]), ("limited", [("n", 4), ("n", 15)])])]))
+    runs.append((1, cnt, [(1, [("rename", [("n", 1), ("n", 15)]), ("dynamic", [("n", 4), ("n", 1)])])]))
     for _ in range(n):
         k = rng.randint(1, 6)
         mems, names = [], []
@@ -122,6 +129,8 @@ def act_coq(a):
         return "AGreedy %d" % v[0]
     if k == "static":
         return "AStatic %d (%d)%%Z" % (v[0], v[1])
+    if k == "rename":
+        return "ARename %d %d" % (v[0], v[1])
     return "ALimited %d %d" % (v[0], v[1])
 
 
